@@ -39,7 +39,8 @@ def plan(tier: str, seed: int) -> list[dict]:
                 cases.append({"k": "perm", "bs": bs, "n": n, "perm": list(perm)})
     rng = rng_for(seed, ID, "plan")
     nrand = 140 if tier == "quick" else 15000
-    sizes = [512, 1024, 4096, 8192, 16384, 65536, 1 << 20] + ([2 << 20, 4 << 20] if tier == "thorough" else [])
+    # the format stores the block size as a plain byte count: not only powers of two
+    sizes = [512, 1024, 1536, 2560, 4096, 8192, 12288, 16384, 65536, 0x18000, 1 << 20, (1 << 20) + 512] + ([2 << 20, 4 << 20] if tier == "thorough" else [])
     for i in range(nrand):
         bs = rng.choice(sizes)
         n = rng.randrange(1, 41 if bs <= 65536 else 7)
